@@ -199,6 +199,16 @@ Plan gen(uint64_t seed, const std::string& tier) {
         s.kind = "seed";
         s.thr = t;
         s.a = {double(r.chance(0.7) ? r.range(0, 1000) : int64_t(r.next() % 4294967295ull) - 2147483647)};
+        if (r.chance(0.3)) {
+            // seed twice with the SAME value and only 0-2 generator calls in between (a "seed unchanged, skip" shortcut must not skip)
+            pl.ops.push_back(s);
+            const int between = int(r.range(0, 2));
+            for (int i = 0; i < between; ++i) {
+                Op op = gen_g(r);
+                op.thr = t;
+                pl.ops.push_back(op);
+            }
+        }
         pl.ops.push_back(s);
         const int nsuf = int(r.range(1, 8));
         for (int i = 0; i < nsuf; ++i) {
